@@ -602,6 +602,10 @@ class Interp(object):
             return a[1]
         if name == "__muldc3":
             return (dag.sub(dag.mul(a[0], a[2]), dag.mul(a[1], a[3])), dag.add(dag.mul(a[0], a[3]), dag.mul(a[1], a[2])))
+        if name in ("omp_get_num_threads", "omp_get_max_threads"):
+            return 1        # serial semantics (the -fno-openmp IR): one thread; thread-count questions are C10's
+        if name == "omp_get_thread_num":
+            return 0
         if name in ("malloc", "calloc"):
             n = a[0] if name == "malloc" else a[0] * a[1]
             return Ptr(MapObj("heap%d" % self.steps, n, "heap", zero=(name == "calloc")), 0)
